@@ -518,12 +518,67 @@ def charinfo_always(run, fx):
         run.held('ONEPERCHAR', inst, fn.loc(inits[0]), 'CharInfo::init is reached on every path except `%s == 0`' % '/'.join(sorted(pure)))
 
 
+def ptflow(run, fx, rule='ASSOCDOM'):
+    """ASSOCDOM, the plumbing behind "INSERT / DELETE only before the character associations are made": the loader refuses those opcodes
+    when the code it analyses belongs to a positioning or justification pass, and it knows the pass type only because
+    Silf::readGraphite -> Pass::readPass -> Pass::readRules -> Machine::Code::Code hand it down.  Every link passes on the pass type IT
+    was given: the rule ACTION's Code is constructed with readRules' own pass-type parameter (constraints may not modify the stream at
+    all, whatever type they are given), and readPass calls readRules with its own."""
+    rr, rp = fx.one('graphite2::Pass::readRules'), fx.one('graphite2::Pass::readPass')
+    inst = 'the pass type reaches the code loader of every rule action'
+
+    def ptparam(fn):
+        ps = [p for p in (fn.f.get('params') or []) if (p.get('t') or '').replace('const ', '').strip().endswith('passtype')]
+        return ps[0].get('n') if len(ps) == 1 else None
+    prr, prp = ptparam(rr), ptparam(rp)
+    if not prr or not prp:
+        run.broken(rule, inst, 'readRules / readPass no longer take exactly one passtype parameter', rr.where())
+        return
+    ctor_key = None
+    acts = []
+    for _, e in rr.elements():
+        if e['k'] in ('CXXConstructExpr', 'CXXTemporaryObjectExpr') and (e.get('fq') or '').endswith('Machine::Code::Code') and len(e.get('args') or e.get('c') or []) >= 8:
+            if e.get('args') is None:
+                e = dict(e, args=e.get('c'))
+            first = rr.strip_all_casts(rr.N(e['args'][0]))
+            if first.get('v') in (0, False):
+                acts.append(e)
+    if len(acts) != 1:
+        run.broken(rule, inst, 'expected one construction of a rule action\'s Code (first argument false) in Pass::readRules, found %d' % len(acts), rr.where())
+        return
+    e = acts[0]
+    callee = fx.fn(e.get('fm')) if e.get('fm') in fx.raw['functions'] else None
+    cps = (callee.f.get('params') or []) if callee else []
+    idx = [k for k, p in enumerate(cps) if (p.get('t') or '').replace('const ', '').strip().endswith('passtype')]
+    if len(idx) != 1 or idx[0] >= len(e['args']):
+        run.broken(rule, inst, 'the passtype parameter of Machine::Code::Code was not found', rr.loc(e))
+        return
+    given = rr.strip_all_casts(rr.N(e['args'][idx[0]]))
+    if not (given.get('k') == 'DeclRefExpr' and given.get('pi') is not None and rr.render(given) == prr):
+        run.violated(rule, inst, rr.loc(e), 'Pass::readRules constructs the rule action\'s code with the pass type `%s`, not with the type of the pass being read (`%s`): the loader\'s refusal of INSERT / '
+                     'DELETE in positioning and justification passes never sees such a pass -- a font can delete or insert slots after associateChars, and the char-infos then point at slots that '
+                     'are gone or miss the new ones' % (rr.render(given), prr))
+        return
+    calls = [c for _, c in rp.elements() if c['k'] in ('CXXMemberCallExpr', 'CallExpr') and (c.get('fq') or '').endswith('Pass::readRules')]
+    if len(calls) != 1:
+        run.broken(rule, inst, 'expected one readRules call in Pass::readPass, found %d' % len(calls), rp.where())
+        return
+    c = calls[0]
+    k = [j for j, p in enumerate(rr.f.get('params') or []) if p.get('n') == prr][0]
+    a = rp.strip_all_casts(rp.N(c['args'][k]))
+    if not (a.get('k') == 'DeclRefExpr' and a.get('pi') is not None and rp.render(a) == prp):
+        run.violated(rule, inst, rp.loc(c), 'Pass::readPass calls readRules with the pass type `%s`, not its own `%s`' % (rp.render(a), prp))
+        return
+    run.held(rule, inst, rr.loc(e), 'readPass(%s) -> readRules(%s) -> Code(.., %s, ..)' % (prp, prr, prr))
+
+
 def run(run):
     vm = R.get_vm(run)
     fx = vm.fx
     oneperchar(run, fx)
     charinfo_always(run, fx)
     assocdom(run, fx)
+    ptflow(run, fx)
     cinfo(run, fx)
     gapfill(run, fx)
     edgefill(run, fx)
